@@ -101,7 +101,7 @@ def enc_bits(op):
     if k in ('bits', 'slice'):
         assert R.is01(op['v'])
         return op['v']
-    if k == 'refused':
+    if k in ('refused', 'rebind'):
         return ''
     if k == 'bytes':
         return R.from_bytes(bytes.fromhex(op['v']))
@@ -477,6 +477,15 @@ def _run(ops, fails):
         if f is not None:
             fails.append(f)
             return
+        if k == 'rebind':
+            # the caller swaps the builder's containers for equal ones through the public setters (snapshot / roll-back idiom):
+            # every later store goes into what the builder holds NOW
+            ok, e = call(lambda: (setattr(b, 'bits', b.bits.copy()) if op['what'] != 'refs' else None,
+                                  setattr(b, 'refs', list(b.refs)) if op['what'] != 'bits' else None))
+            if not ok:
+                fails.append(Fail(f'rebind/raises/{exc_sig(e)}', repr(e)))
+            spans.append((len(exp_bits), len(exp_refs), None))
+            continue
         if k == 'refused':
             f = _refused(b, op, exp_bits, exp_refs)
             if f is not None:
@@ -557,7 +566,7 @@ def _run(ops, fails):
     s = alt if alt is not None else cell.begin_parse()
     off, roff = 0, 0
     for i, op in enumerate(ops):
-        if op['op'] == 'refused':
+        if op['op'] in ('refused', 'rebind'):
             continue
         kc = kindclass(op, store_side=False)
         end, rend, aux = spans[i]
@@ -693,6 +702,8 @@ def classify(case):
             labels.append(kindclass(op))
         elif k == 'refused':
             labels.append('refused:' + op['what'])
+        elif k == 'rebind':
+            labels.append('rebind:' + op['what'])
         for lb in labels:
             if lb not in seen:
                 seen.add(lb)
@@ -784,10 +795,10 @@ _acc = st.one_of(st.binary(min_size=32, max_size=32),
 
 _KIND_W = [('uint', 5), ('int', 5), ('var_uint', 4), ('var_int', 6), ('coins', 3), ('bit', 2), ('bool', 2), ('bits', 2),
            ('bytes', 2), ('string', 2), ('maybe_ref', 3), ('dict', 1), ('dict_hm', 1), ('addr_none', 1), ('addr_ext', 3),
-           ('addr_std', 2), ('addr_std_anycast', 3), ('slice', 4), ('refused', 3)]
+           ('addr_std', 2), ('addr_std_anycast', 3), ('slice', 4), ('refused', 3), ('rebind', 2)]
 _NEED = {'uint': 1, 'int': 1, 'var_uint': 1, 'var_int': 1, 'coins': 4, 'bit': 1, 'bool': 1, 'bits': 0, 'bytes': 0,
          'string': 8, 'maybe_ref': 1, 'dict': 1, 'dict_hm': 1, 'addr_none': 2, 'addr_ext': 11, 'addr_std': 267,
-         'addr_std_anycast': 273, 'slice': 0, 'refused': 0}
+         'addr_std_anycast': 273, 'slice': 0, 'refused': 0, 'rebind': 0}
 
 
 def _fit_utf8(s, limit):
@@ -830,6 +841,8 @@ def _draw_op(draw, kind, left, refs_left):
         limit = min(127, left // 8)
         t = draw(st.one_of(st.text(min_size=1, max_size=12), st.text(min_size=1, max_size=127),
                            st.text(alphabet='aZ09 é€𝄞\x00', min_size=1, max_size=127)))
+        if draw(st.integers(0, 3)) == 0:              # a first character that decoders like to treat specially
+            t = draw(st.sampled_from(['\ufeff', '\x00', '\ufffe', '\u200b', '\r\n', ' '])) + t
         return {'op': 'string', 'v': _fit_utf8(t, limit)}
     if kind in ('maybe_ref', 'dict'):
         v = draw(st.one_of(st.none(), _cellspec)) if refs_left else None
@@ -848,6 +861,8 @@ def _draw_op(draw, kind, left, refs_left):
         if (pbn == 0 and pr == 0) or draw(st.integers(0, 4)) == 0:
             via, pbn, pr = 'store_cell', 0, 0
         return {'op': 'slice', 'pb': draw(_bits01(pbn)), 'pr': pr, 'v': draw(_bits01(n)), 'r': r, 'via': via}
+    if kind == 'rebind':
+        return {'op': 'rebind', 'what': draw(st.sampled_from(['bits', 'refs', 'both']))}
     if kind == 'refused':
         return {'op': 'refused', 'w': draw(st.sampled_from([1, 2, 8, 32, 64, 255, 256])),
                 'what': draw(st.sampled_from(['cell-bits', 'slice-bits', 'cell-refs', 'slice-refs', 'ref', 'uint-range', 'int-range',
@@ -908,7 +923,7 @@ def _sequence(draw):
                 ops.append({'op': 'snake', 'v': draw(st.binary(min_size=ln, max_size=ln)).hex()})
             else:                                # a text of exactly ln UTF-8 bytes (the prefix byte included)
                 body = ln - (1 if how == 'string-prefix' and ln else 0)
-                t0 = draw(st.text(alphabet='snake Zé€𝄞', min_size=1, max_size=24))
+                t0 = draw(st.sampled_from(['', '', '\x00', '\ufeff', '\x00\x00'])) + draw(st.text(alphabet='snake Zé€𝄞', min_size=1, max_size=24))
                 t = _fit_utf8(t0 * (body // len(t0) + 1), body) if body else ''
                 raw = t.encode('utf-8')
                 raw += b'x' * (body - len(raw))
